@@ -245,6 +245,83 @@ theorem no_overlay_vanishes (ev : Env → ε → JVal) (env : Env) (template for
     injection h with h
     rw [← h, materialise_is_fold ev env template forced steps hw hf]
 
+/-! ### inside one step the `skipIf` decides first; a listed overlay that is unavailable means no target -/
+
+/-- when the `inputs` of every *applied* function overlay evaluate, the order-aware model is the
+    model above -/
+theorem materialiseF_of_inputs_ok (ev : Env → ε → JVal) (ok : Env → ε → Bool) (env : Env)
+    (template forced : Fields) (steps : List (Step ε))
+    (h : ∀ s ∈ steps, skipDecision ev env s = some false → inputsOk ok env s = true) :
+    materialiseF ev ok env template forced steps = materialiseE ev env template forced steps := by
+  simp only [materialiseF, materialiseE]
+  split
+  · rfl
+  · rw [overlaysLoopF_of_inputsOk ev ok env steps h]
+
+/-- **`skipIf` decides before anything else of the step is evaluated**: whether the `inputs` of a
+    skipped (or undecidable) step evaluate is irrelevant — the outcome depends on `ok` only through
+    the steps whose `skipIf` is `false`/absent -/
+theorem skipIf_decides_before_inputs (ev : Env → ε → JVal) (ok ok' : Env → ε → Bool) (env : Env)
+    (template forced : Fields) (steps : List (Step ε))
+    (h : ∀ s ∈ steps, skipDecision ev env s = some false → inputsOk ok env s = inputsOk ok' env s) :
+    materialiseF ev ok env template forced steps = materialiseF ev ok' env template forced steps := by
+  simp only [materialiseF]
+  split
+  · rfl
+  · rw [overlaysLoopF_congr ev ok ok' env steps h]
+
+/-- a skipped step leaves no trace even when its `inputs` could not be evaluated: the target (or the
+    failure) is the one of the definition without that step -/
+theorem skipped_step_with_failing_inputs_leaves_no_trace (ev : Env → ε → JVal) (ok : Env → ε → Bool)
+    (env : Env) (template forced : Fields) (pre post : List (Step ε)) (s : Step ε)
+    (hs : skipDecision ev env s = some true) (hf : HDO forced) :
+    materialiseF ev ok env template forced (pre ++ s :: post)
+      = materialiseF ev ok env template forced (pre ++ post) := by
+  simp only [materialiseF]
+  rw [overlaysLoopF_drop_skipped ev ok env s hs post pre]
+  have h1 : (pre ++ s :: post).isEmpty = false := by cases pre <;> rfl
+  simp only [h1, Bool.false_eq_true, if_false]
+  split
+  · rename_i he
+    have hnil : pre ++ post = [] := by simpa using he
+    rw [hnil]
+    simp [overlaysLoopF, deep_overlay_idempotent forced hf]
+  · rfl
+
+/-- an *applied* function overlay whose `inputs` fail to evaluate: that outcome, no target -/
+theorem failing_inputs_of_applied_step_gives_no_target (ev : Env → ε → JVal) (ok : Env → ε → Bool)
+    (env : Env) (template forced : Fields) (steps : List (Step ε))
+    (h : ∃ s ∈ steps, skipDecision ev env s = some false ∧ inputsOk ok env s = false) :
+    materialiseF ev ok env template forced steps = none := by
+  simp only [materialiseF]
+  have hne : steps.isEmpty = false := by
+    obtain ⟨s, hm, _⟩ := h
+    cases steps with
+    | nil => simp at hm
+    | cons _ _ => rfl
+  simp only [hne, Bool.false_eq_true, if_false]
+  rw [overlaysLoopF_failing_inputs ev ok env steps h]; rfl
+
+/-- a listed overlay that could not be prepared (its ValueFunction is not there yet): no target at
+    all — never a target built from the remaining overlays -/
+theorem unavailable_overlay_gives_no_target (ev : Env → ε → JVal) (ok : Env → ε → Bool) (env : Env)
+    (template forced : Fields) (listed : List (Option (Step ε))) (h : none ∈ listed) :
+    materialiseP ev ok env template forced listed = none := by
+  simp [materialiseP, allAvailable_none listed h]
+
+/-- whenever a target exists, *every* listed overlay was available, and the target is the one of
+    exactly the listed steps (so, by `no_overlay_vanishes`, each of them is skipped-by-`true` or merged) -/
+theorem target_uses_every_listed_overlay (ev : Env → ε → JVal) (ok : Env → ε → Bool) (env : Env)
+    (template forced : Fields) (listed : List (Option (Step ε))) (t : Fields)
+    (h : materialiseP ev ok env template forced listed = some t) :
+    ∃ steps, listed = steps.map some ∧ materialiseF ev ok env template forced steps = some t := by
+  unfold materialiseP at h
+  cases ha : allAvailable listed with
+  | none => simp [ha] at h
+  | some steps =>
+    simp only [ha] at h
+    exact ⟨steps, allAvailable_some listed steps ha, h⟩
+
 /-- the created object's view: optional `create.overlay` deep-merged over the target, forced
     overlay on top -/
 theorem create_view_is_merge (ev : Env → ε → JVal) (env : Env) (target forced : Fields)
@@ -366,6 +443,23 @@ example : materialise exEv exRfEnv [("data", .obj [("k", .str "v")])] exForced e
 example : materialiseE exEv exRfEnv [] exForced
     (exSteps ++ [.inline (some (.str "=inputs.absent")) (OSpec.ofFields [("a", .int 1)])]) = none := by rfl
 example : (materialiseE exEv exRfEnv [("data", .obj [("k", .str "v")])] exForced exSteps).isSome = true := by rfl
+-- a skipped function overlay whose `inputs` cannot be evaluated does not matter; the same step applied does
+def exBadInputs : Step JVal := .vfRef (some (.str "=inputs.skip")) (some (.str "=inputs.tls.secretName"))
+  { locals := none, ret := OSpec.ofFields [("a", .int 1)] }
+def exOk (_ : Env) : JVal → Bool
+  | .str "=inputs.tls.secretName" => false
+  | _ => true
+example : skipDecision exEv exRfEnv exBadInputs = some true ∧ inputsOk exOk exRfEnv exBadInputs = false := by
+  constructor <;> rfl
+example : materialiseF exEv exOk exRfEnv [] exForced (exSteps ++ [exBadInputs])
+    = materialiseF exEv exOk exRfEnv [] exForced exSteps := by rfl
+example : (materialiseF exEv exOk exRfEnv [] exForced exSteps).isSome = true := by rfl
+example : materialiseF exEv exOk exRfEnv [] exForced
+    [.vfRef none (some (.str "=inputs.tls.secretName")) { locals := none, ret := OSpec.ofFields [("a", .int 1)] }]
+    = none := by rfl
+-- a listed overlay that is not available: no target, although the other overlays are fine
+example : materialiseP exEv exOk exRfEnv [] exForced (exSteps.map some ++ [none]) = none := by rfl
+example : (materialiseP exEv exOk exRfEnv [] exForced (exSteps.map some)).isSome = true := by rfl
 -- … and the hypotheses of `skipped_overlay_leaves_no_trace` are met by the second step
 example : skipped exEv exRfEnv (exSteps[1]) = true := by rfl
 example : active exEv exRfEnv exSteps = [exSteps[0], exSteps[2]] := by rfl
